@@ -239,7 +239,8 @@ pub fn minimise(engine: &dyn Engine, failing: &Case, violation: &Violation, sb: 
             );
             frozen.sched = Sched {
                 kind: "replay".into(),
-                seed: 0,
+                // kept: the stand-ins' own choices (fold splits) derive from it
+                seed: best.sched.seed,
                 a: 0,
                 b: best.sched.b,
                 decisions_rle: rle_encode(&o.log.decisions),
